@@ -82,21 +82,182 @@ fn show_b(b: bool) -> &'static str {
     }
 }
 
-/// parse exactly `DSU { p: [0, 1], sz: [1, 1] }` (the derived `Debug` of the two-field struct); anything else is `None`
-fn parse_debug(s: &str) -> Option<(Vec<usize>, Vec<usize>)> {
-    let body = s.strip_prefix("DSU { p: [")?.strip_suffix("] }")?;
-    let (p_txt, sz_txt) = body.split_once("], sz: [")?;
-    let list = |t: &str| -> Option<Vec<usize>> {
-        let mut v = Vec::new();
-        for x in t.split(',') {
-            let x = x.trim();
-            if !x.is_empty() {
-                v.push(x.parse().ok()?);
+/// A value of a derived `Debug` text: numbers, lists, structs / tuple structs (names are kept for fields only).
+enum Val {
+    Num(usize),
+    List(Vec<Val>),
+    Struct(Vec<(String, Val)>),
+    Other,
+}
+
+struct DbgParser<'a> {
+    b: &'a [u8],
+    i: usize,
+}
+
+impl<'a> DbgParser<'a> {
+    fn ws(&mut self) {
+        while self.i < self.b.len() && (self.b[self.i] == b' ' || self.b[self.i] == b'\n') {
+            self.i += 1;
+        }
+    }
+    fn ident(&mut self) -> String {
+        let st = self.i;
+        while self.i < self.b.len() && (self.b[self.i].is_ascii_alphanumeric() || self.b[self.i] == b'_') {
+            self.i += 1;
+        }
+        String::from_utf8_lossy(&self.b[st..self.i]).to_string()
+    }
+    fn value(&mut self, depth: usize) -> Option<Val> {
+        if depth > 8 {
+            return None;
+        }
+        self.ws();
+        let c = *self.b.get(self.i)?;
+        if c.is_ascii_digit() {
+            let st = self.i;
+            while self.i < self.b.len() && self.b[self.i].is_ascii_digit() {
+                self.i += 1;
+            }
+            return std::str::from_utf8(&self.b[st..self.i]).ok()?.parse().ok().map(Val::Num);
+        }
+        if c == b'[' {
+            self.i += 1;
+            let mut v = Vec::new();
+            loop {
+                self.ws();
+                if *self.b.get(self.i)? == b']' {
+                    self.i += 1;
+                    return Some(Val::List(v));
+                }
+                v.push(self.value(depth + 1)?);
+                self.ws();
+                if *self.b.get(self.i)? == b',' {
+                    self.i += 1;
+                }
             }
         }
-        Some(v)
-    };
-    Some((list(p_txt)?, list(sz_txt)?))
+        if c.is_ascii_alphabetic() || c == b'_' || c == b'(' {
+            let _name = if c == b'(' { String::new() } else { self.ident() };
+            self.ws();
+            match self.b.get(self.i) {
+                Some(b'{') => {
+                    self.i += 1;
+                    let mut fields = Vec::new();
+                    loop {
+                        self.ws();
+                        if *self.b.get(self.i)? == b'}' {
+                            self.i += 1;
+                            return Some(Val::Struct(fields));
+                        }
+                        let f = self.ident();
+                        self.ws();
+                        if *self.b.get(self.i)? != b':' {
+                            return None;
+                        }
+                        self.i += 1;
+                        let v = self.value(depth + 1)?;
+                        fields.push((f, v));
+                        self.ws();
+                        if *self.b.get(self.i)? == b',' {
+                            self.i += 1;
+                        }
+                    }
+                }
+                Some(b'(') => {
+                    self.i += 1;
+                    let mut fields = Vec::new();
+                    loop {
+                        self.ws();
+                        if *self.b.get(self.i)? == b')' {
+                            self.i += 1;
+                            return Some(Val::Struct(fields));
+                        }
+                        let v = self.value(depth + 1)?;
+                        fields.push((fields.len().to_string(), v));
+                        self.ws();
+                        if *self.b.get(self.i)? == b',' {
+                            self.i += 1;
+                        }
+                    }
+                }
+                _ => return Some(Val::Other), // unit-like name (`None`, `true`, …)
+            }
+        }
+        None
+    }
+}
+
+/// all integer "columns" of length-n data reachable from the top-level struct: a field that is a list of numbers, or each
+/// numeric field of a field that is a list of equal-shaped structs
+fn columns(v: &Val) -> Vec<Vec<usize>> {
+    let mut cols = Vec::new();
+    if let Val::Struct(fields) = v {
+        for (_, f) in fields {
+            if let Val::List(items) = f {
+                if items.iter().all(|x| matches!(x, Val::Num(_))) {
+                    cols.push(items.iter().map(|x| if let Val::Num(k) = x { *k } else { 0 }).collect());
+                } else if let Some(Val::Struct(first)) = items.first() {
+                    let k = first.len();
+                    let ok = items.iter().all(|x| matches!(x, Val::Struct(fs) if fs.len() == k));
+                    if ok {
+                        for c in 0..k {
+                            let col: Option<Vec<usize>> = items
+                                .iter()
+                                .map(|x| match x {
+                                    Val::Struct(fs) => match fs[c].1 {
+                                        Val::Num(z) => Some(z),
+                                        _ => None,
+                                    },
+                                    _ => None,
+                                })
+                                .collect();
+                            if let Some(col) = col {
+                                cols.push(col);
+                            }
+                        }
+                    }
+                }
+            }
+        }
+    }
+    cols
+}
+
+/// is (parent, size) a forest on n = len vertices whose root sizes add up to n?
+fn valid_forest(p: &[usize], sz: &[usize]) -> bool {
+    if p.len() != sz.len() {
+        return false;
+    }
+    match depths(p) {
+        None => false,
+        Some(_) => {
+            let total: usize = (0..p.len()).filter(|&r| p[r] == r).map(|r| sz[r]).sum();
+            total == p.len()
+        }
+    }
+}
+
+/// Recover the parent forest and the sizes from the derived `Debug` text of the structure, whatever its private layout is,
+/// as long as there are a parent-like and a size-like integer column (two vectors, or one vector of two-field structs, …):
+/// every ordered pair of columns is tried (declaration order first) and the first one that is a valid forest is taken.
+/// `None` = the forest is not observable without hooks.
+fn parse_debug(s: &str) -> Option<(Vec<usize>, Vec<usize>)> {
+    let mut ps = DbgParser { b: s.as_bytes(), i: 0 };
+    let v = ps.value(0)?;
+    let cols = columns(&v);
+    // an empty structure prints empty lists: nothing to recover, and nothing to measure
+    if !cols.is_empty() && cols.iter().all(|c| c.is_empty()) {
+        return Some((vec![], vec![]));
+    }
+    for a in 0..cols.len() {
+        for b in 0..cols.len() {
+            if a != b && valid_forest(&cols[a], &cols[b]) {
+                return Some((cols[a].clone(), cols[b].clone()));
+            }
+        }
+    }
+    None
 }
 
 /// depth of every vertex in O(n) (memoised along paths); `None` if the parent pointers contain a cycle / escape
@@ -143,13 +304,14 @@ fn log2_floor(x: usize) -> u32 {
     usize::BITS - 1 - x.leading_zeros()
 }
 
-fn dump_tok(d: &DSU) -> (Tok, bool) {
+/// (diagnostic text, view, depth violated?).  The view is `depth-ok` also when the forest cannot be recovered from the
+/// Debug text (depth is then not observable without hooks; the small-stack runs still check that lookups do not recurse
+/// deeply); the diagnostic text then says `depth=unknown`.
+fn dump_tok(d: &DSU, oc: &Oracle) -> (String, String, bool) {
     let text = format!("{:?}", d.clone());
     let (p, sz) = match parse_debug(&text) {
         Some(x) => x,
-        // the Debug text is no longer the one this harness understands: that breaks the correspondence (raw differs from
-        // the model's dump), it is NOT evidence against the property, so the view stays neutral
-        None => return (Tok { raw: "debug-unparsable".into(), view: "depth-ok".into() }, false),
+        None => return ("depth=unknown".to_string(), "depth-ok".to_string(), false),
     };
     let n = p.len();
     let (view, dmax) = match depths(&p) {
@@ -159,15 +321,17 @@ fn dump_tok(d: &DSU) -> (Tok, bool) {
             let mut dmax = 0;
             for v in 0..n {
                 dmax = dmax.max(depth[v]);
-                let z = sz[root[v]];
-                if bad.is_none() && (z == 0 || depth[v] > log2_floor(z)) {
+                // the bound is the cardinality of v's class according to the independent oracle (not the structure's own
+                // size field), and the root must be a member of that class
+                let z = if v < oc.n { oc.size(v) } else { 0 };
+                if bad.is_none() && (z == 0 || depth[v] > log2_floor(z) || !(root[v] < oc.n && oc.conn(v, root[v]))) {
                     bad = Some(format!("DEPTH!v={},d={},size={}", v, depth[v], z));
                 }
             }
             (bad.unwrap_or_else(|| "depth-ok".to_string()), dmax)
         }
     };
-    let raw = if n <= 64 {
+    let diag = if n <= 64 {
         let j = |v: &[usize]| v.iter().map(|x| x.to_string()).collect::<Vec<_>>().join(",");
         format!("p=[{}]/sz=[{}]/depth={}", j(&p), j(&sz), dmax)
     } else {
@@ -176,7 +340,7 @@ fn dump_tok(d: &DSU) -> (Tok, bool) {
         format!("p#{:016x}/sz#{:016x}/depth={}", hp, hs, dmax)
     };
     let violated = view != "depth-ok";
-    (Tok { raw, view }, violated)
+    (diag, view, violated)
 }
 
 fn binom_pairs(lo: usize, hi: usize) -> Vec<(usize, usize)> {
@@ -322,13 +486,20 @@ fn do_op(st: &mut State, t: &[&str]) -> Out {
             Out::Tok(tok1("-"))
         }
         ("dump", 1) => {
-            let (tk, violated) = dump_tok(&st.cur);
+            // raw is the constant `dump`: the private arrays are not part of the comparison, only the depth predicate is
+            let (_diag, view, violated) = dump_tok(&st.cur, &st.oc);
+            let tk = Tok { raw: "dump".to_string(), view };
             // a degenerate forest makes everything after it quadratic on the 10^6 runs: report and stop
             if violated && n > 4096 {
                 Out::Stop(tk)
             } else {
                 Out::Tok(tk)
             }
+        }
+        ("dumpdiag", 1) => {
+            // diagnostic only (used by checks/C05.py::extra, never by the generated stream): arrays / depth as text
+            let (diag, _view, _) = dump_tok(&st.cur, &st.oc);
+            Out::Tok(Tok { raw: diag, view: "diag".to_string() })
         }
         ("parall", 1) => {
             let mut h = FNV_INIT;
@@ -438,12 +609,50 @@ fn do_op(st: &mut State, t: &[&str]) -> Out {
     }
 }
 
+static SS_CHILD: std::sync::atomic::AtomicBool = std::sync::atomic::AtomicBool::new(false);
+const SMALL_STACK: usize = 256 << 10;
+
+/// run one case in a child process whose worker thread has a 256 KiB stack: log-depth recursion fits easily, a lookup that
+/// recurses along a chain of 10^5 or more vertices overflows; the child's death is reported as the view `STACK!`
+fn run_in_small_stack_child(line: &str) -> String {
+    use std::io::Write;
+    use std::process::{Command, Stdio};
+    let exe = match std::env::current_exe() {
+        Ok(e) => e,
+        Err(_) => return out1("INVALID"),
+    };
+    let mut child = match Command::new(exe).args(["run", "--ss-child", "1"]).stdin(Stdio::piped()).stdout(Stdio::piped()).stderr(Stdio::null()).spawn() {
+        Ok(c) => c,
+        Err(_) => return out1("INVALID"),
+    };
+    {
+        let mut stdin = child.stdin.take().unwrap();
+        let _ = stdin.write_all(line.as_bytes());
+        let _ = stdin.write_all(b"\n");
+    }
+    let out = match child.wait_with_output() {
+        Ok(o) => o,
+        Err(_) => return out1("INVALID"),
+    };
+    let text = String::from_utf8_lossy(&out.stdout);
+    let first = text.lines().next().unwrap_or("");
+    if out.status.success() && first.starts_with("I ") {
+        first.to_string()
+    } else {
+        out2("crashed-on-256KiB-stack", "STACK!lookup-recursion-overflowed-a-256KiB-stack")
+    }
+}
+
 fn run_case(line: &str) -> String {
     let mut parts = line.split(';').map(|p| p.trim());
-    let n0: usize = match parts.next().and_then(|h| h.parse().ok()) {
+    let hdr: Vec<&str> = parts.next().unwrap_or("").split_whitespace().collect();
+    let n0: usize = match hdr.first().and_then(|h| h.parse().ok()) {
         Some(n) => n,
         None => return out1("INVALID"),
     };
+    if hdr.contains(&"ss") && !SS_CHILD.load(std::sync::atomic::Ordering::Relaxed) {
+        return run_in_small_stack_child(line);
+    }
     let cur = match catch(|| DSU::new(n0)) {
         Ok(d) => d,
         Err(e) => return out1(&e),
@@ -728,6 +937,25 @@ fn gen(args: &Args, emit: &mut dyn FnMut(String), st: &mut Stats) {
             }
         }
     }
+    // (5b) the no-stack-exhaustion clause without reading the forest: the same adversarial orders, and lookups of OLD
+    //      elements after unions through non-roots, in a child process with a 256 KiB stack (log-depth recursion needs a few
+    //      hundred bytes; a chain of 10^5 frames does not fit).  Independent of the Debug layout.
+    let ss_sizes: Vec<usize> = if thorough { vec![100_000, 1_000_000] } else { vec![100_000] };
+    for n in ss_sizes {
+        let h = n / 2;
+        for l in [
+            format!("{n} ss ; un 0 1 ; star 0 2 {n} ; par 1 ; parall ; sizeall ; dump"),
+            format!("{n} ss ; un 1 0 ; starr 0 2 {n} ; par 1 ; parall ; dump"),
+            format!("{n} ss ; chain 0 {n} ; par 0 ; parall ; dump"),
+            format!("{n} ss ; chainr 0 {n} ; par {} ; parall ; dump", n - 1),
+            format!("{n} ss ; binom 0 {n} ; par 0 ; checkadj ; parall ; dump"),
+            format!("{n} ss ; binom 0 {h} ; chain {h} {n} ; un {} 0 ; par 0 ; par {h} ; parall ; dump", n - 1),
+            format!("{n} ss ; randmix {} {n} ; parall ; dump", rng.next_u64() >> 1),
+        ] {
+            emit(l);
+            st.bump("small_stack_runs");
+        }
+    }
     // (6) out-of-domain stream: arguments out of range (index panic; the property says nothing)
     for l in [
         "3 ; un 0 3",
@@ -753,13 +981,29 @@ fn main() {
     // oracle / parser self-tests (guard the harness itself)
     assert_eq!(parse_debug("DSU { p: [0, 0, 2], sz: [2, 1, 1] }"), Some((vec![0, 0, 2], vec![2, 1, 1])));
     assert_eq!(parse_debug("DSU { p: [], sz: [] }"), Some((vec![], vec![])));
+    assert_eq!(parse_debug("DSU { sz: [2, 1, 1], p: [0, 0, 2] }"), Some((vec![0, 0, 2], vec![2, 1, 1])));
+    assert_eq!(
+        parse_debug("DSU { nodes: [Node { parent: 0, count: 2 }, Node { parent: 0, count: 1 }, Node { parent: 2, count: 1 }] }"),
+        Some((vec![0, 0, 2], vec![2, 1, 1]))
+    );
+    assert_eq!(
+        parse_debug("DSU { nodes: [Node { count: 2, parent: 0 }, Node { count: 1, parent: 0 }, Node { count: 1, parent: 2 }] }"),
+        Some((vec![0, 0, 2], vec![2, 1, 1]))
+    );
+    assert_eq!(parse_debug("DSU { nodes: [] }"), Some((vec![], vec![])));
+    assert_eq!(parse_debug("DSU { data: [(0, 2), (0, 1), (2, 1)] }"), Some((vec![0, 0, 2], vec![2, 1, 1])));
+    assert!(parse_debug("DSU { links: {0: 1} }").is_none());
+    assert!(parse_debug("DSU").is_none());
     let (d, r) = depths(&[1, 2, 2, 3]).unwrap();
     assert_eq!((d, r), (vec![2, 1, 0, 0], vec![2, 2, 2, 3]));
     assert!(depths(&[1, 0]).is_none());
     // run everything on a thread with a large stack: a degenerate forest (a broken union-by-size) must show up as a
-    // depth violation in the output, not as a stack overflow of this process
+    // depth violation in the output, not as a stack overflow of this process.  Cases flagged `ss` are re-run in a child
+    // of this binary (`--ss-child`) whose worker thread has only 256 KiB.
+    let ss_child = std::env::args().any(|a| a == "--ss-child");
+    SS_CHILD.store(ss_child, std::sync::atomic::Ordering::Relaxed);
     let child = std::thread::Builder::new()
-        .stack_size(3 << 30)
+        .stack_size(if ss_child { SMALL_STACK } else { 3 << 30 })
         .spawn(|| cli(gen, |line| run_case(line)))
         .unwrap();
     child.join().unwrap();
